@@ -63,7 +63,7 @@ def run(ctx):
         for v in res.get("violations") or []:
             ctx.violation(v["key"], v["what"], d["replay"])
         finish(ctx, LEVEL, dict(traces_validated_against_impl=res["distinct_paths"], samples=[d["replay"]["tree"]][:1]))
-    hc221 = dict(nval=3, win=9, initW=[2, 2, 1], initPCT=4, choices=[])
+    hc221 = dict(nval=3, win=9, initW=[2, 2, 1], initPCT=4, choices=[], byz=[3])
     choices221 = [dict(pcT=3, certT=3, w=[2, 2, 0]), dict(pcT=4, certT=4, w=[3, 2, 1])]
     runs = []
     if ctx.tier == "quick":
@@ -74,7 +74,7 @@ def run(ctx):
                      dict(hc221, initPCT=2), dict(timeout=3000)))
         runs.append(("t1111", cfg_text("LiskBFTTree_q", NVal=4, Byz="{4}", InitW="W1111", InitPCT=3, MaxBlocks=9, MaxHeight=6,
                                        DumpEvery=3000, DumpFinalEvery=150),
-                     dict(nval=4, win=9, initW=[1, 1, 1, 1], initPCT=3, choices=[]), dict(timeout=3000)))
+                     dict(nval=4, win=9, initW=[1, 1, 1, 1], initPCT=3, choices=[], byz=[4]), dict(timeout=3000)))
         runs.append(("tnoncontra", cfg_text("LiskBFTTree_q", HonestMode='"noncontra"', MaxBlocks=8, MaxHeight=6, DumpEvery=3000, DumpFinalEvery=150),
                      hc221, dict(timeout=3000)))
         runs.append(("tchg", cfg_text("LiskBFTTree_q", ParamChoices="Choices221", MaxChg=1, MaxBlocks=8, MaxHeight=6, DumpEvery=3000, DumpFinalEvery=150),
